@@ -61,6 +61,9 @@ impl<T> ConcurrentVec<T> {
             return;
         }
         // We need to write to the vector and potentially resize it. Grab a write lock.
+        #[cfg(feature = "verif-hooks")]
+        let _verif_section =
+            crate::verif::section(crate::verif::site::MUTEX, &self.write_lock as *const _ as usize);
         let _guard = self.write_lock.lock().unwrap();
         let head = self.head.load(Ordering::Acquire);
         if new_len <= head {
@@ -84,9 +87,14 @@ impl<T> ConcurrentVec<T> {
     /// Push `item` onto the vector. Other calls to `push` may have to complete
     /// in order for this item to be visible.
     pub fn push(&self, item: T) -> usize {
+        #[cfg(feature = "verif-hooks")]
+        let _verif_section =
+            crate::verif::section(crate::verif::site::MUTEX, &self.write_lock as *const _ as usize);
         let _guard = self.write_lock.lock().unwrap();
         let index = self.head.load(Ordering::Acquire);
         self.push_at(item, index, MaybeUninit::uninit);
+        #[cfg(feature = "verif-hooks")]
+        crate::verif::yield_point(crate::verif::site::CVEC);
         self.head.store(index + 1, Ordering::Release);
         index
     }
@@ -105,6 +113,8 @@ impl<T> ConcurrentVec<T> {
         }
         // `index` is out of bounds. Need to resize.
         mem::drop(handle);
+        #[cfg(feature = "verif-hooks")]
+        crate::verif::yield_point(crate::verif::site::CVEC);
         let mut writer = self.data.lock();
         if index >= writer.len() {
             writer.resize_with((index + 1).next_power_of_two(), &mut init_fn);
@@ -115,6 +125,8 @@ impl<T> ConcurrentVec<T> {
 
     pub fn read(&self) -> impl Deref<Target = [T]> + '_ {
         let valid_prefix = self.head.load(Ordering::Acquire);
+        #[cfg(feature = "verif-hooks")]
+        crate::verif::yield_point(crate::verif::site::CVEC);
         let reader = self.data.read();
         ReadHandle {
             valid_prefix,
